@@ -144,7 +144,8 @@ func c20Run(r *fw.R, d c20Desc) {
 	libBase := context.Context(base)
 	foreign := d.Seed%2 == 0
 	if foreign {
-		libBase = appContext{Context: base, done: make(chan struct{})}
+		// (in half of these its Done method is slow, as a method that takes a lock or crosses a bridge can be)
+		libBase = appContext{Context: base, done: make(chan struct{}), slow: d.Seed%4 == 0}
 	}
 	var wg sync.WaitGroup // harness goroutines that sit inside library calls
 	rng := fw.NewRand(d.Seed)
@@ -569,9 +570,15 @@ func repoDir() string {
 type appContext struct {
 	context.Context
 	done chan struct{}
+	slow bool
 }
 
-func (a appContext) Done() <-chan struct{} { return a.done }
+func (a appContext) Done() <-chan struct{} {
+	if a.slow {
+		time.Sleep(300 * time.Microsecond)
+	}
+	return a.done
+}
 func (a appContext) Err() error {
 	select {
 	case <-a.done:
